@@ -45,7 +45,7 @@ import (
 // ---------------------------------------------------------------- fake broker (message level)
 
 type fault struct {
-	kind  string // ok | lostack | drop | kerr | other | deadline
+	kind  string // ok | lostack | drop | kerr | other | deadline | notopic | nopart
 	code  int16
 	delay time.Duration
 	gate  string // wait for this gate before deciding
@@ -220,6 +220,15 @@ func (f *fakeRT) produce(r *produce.Request) (kafka.Response, error) {
 		f.logs[tp] = append(f.logs[tp], keys...)
 		kafka.VerifWriterEmit("Br.Produce", topic, part, ks, "lost1")
 		return nil, transient(int(ft.code))
+	case "notopic", "nopart":
+		// applied, but the response lacks the topic / the partition entry: (*Client).Produce reports ErrNoTopic /
+		// ErrNoPartition, a non-retriable error — for the Writer an acknowledgement lost for good
+		f.logs[tp] = append(f.logs[tp], keys...)
+		kafka.VerifWriterEmit("Br.Produce", topic, part, ks, "lost1")
+		if ft.kind == "notopic" {
+			return &produce.Response{}, nil
+		}
+		return &produce.Response{Topics: []produce.ResponseTopic{{Topic: topic}}}, nil
 	case "drop":
 		kafka.VerifWriterEmit("Br.Produce", topic, part, ks, "lost0")
 		return nil, transient(int(ft.code))
@@ -434,7 +443,7 @@ func (b *builder) random(idx int, thorough bool) *scenario {
 					case x < 19:
 						ft.kind = "other"
 					default:
-						ft.kind = "deadline"
+						ft.kind = []string{"deadline", "notopic", "nopart"}[r.Intn(3)]
 					}
 					if r.Intn(4) == 0 {
 						ft.delay = time.Duration(r.Intn(4000)) * time.Microsecond
